@@ -116,7 +116,7 @@ NewDataset(typed) ==
 (* library's own tests); query metadata may be attached to it directly; it has no executor of its own       *)
 NewNameRoot ==
     /\ ~PathFocus
-    /\ Room /\ Focus = "qmd" /\ ~ChainOnly
+    /\ Room /\ Focus \in {"qmd", "imm"} /\ ~ChainOnly
     /\ \A i \in 1..Len(heap) : heap[i].op # "NameRoot"
     /\ LET n == Len(heap) + 1
        IN /\ heap' = Append(heap, Node("NameRoot", 0, <<>>, NoQmd, 0))
@@ -261,6 +261,14 @@ ValueSync(s, title, kind, val) ==
           /\ hist' = Append(hist, Act("ValueSync", s, kind, Absent, "", val, title, c))
     /\ UNCHANGED <<streams, pending>>
 
+(* value() on a stream that has no dataset at its root: the call is rejected - and, like every failing call, leaves every *)
+(* stream exactly as it was                                                                                             *)
+ValueFail(s) ==
+    /\ Len(hist) < MaxSteps /\ On({"imm"}) /\ ~ChainOnly
+    /\ RootDs(heap, streams[s].root) = 0
+    /\ hist' = Append(hist, Act("ValueFail", s, "", Absent, "", 0, "", 0))
+    /\ UNCHANGED <<heap, streams, pending, execLog, delivered, ncalls>>
+
 Complete(i, kind, val) ==
     /\ Len(hist) < MaxSteps
     /\ i \in 1..Len(pending)
@@ -283,6 +291,7 @@ Next ==
           \/ Terminal(s)
           \/ \E title \in Titles, ovr \in Ovrs : ValueStart(s, title, ovr)
           \/ \E title \in Titles : ValueSync(s, title, "ret", 7) \/ ValueSync(s, title, "raise", 0)
+          \/ ValueFail(s)
     \/ \E i \in 1..Len(pending) : \E val \in RetVals : Complete(i, "ret", val)
     \/ \E i \in 1..Len(pending) : Complete(i, "raise", 0)
 
